@@ -313,6 +313,10 @@ func (c *Cmd) wire() string {
 	switch c.K {
 	case "NOOP", "EXPUNGE", "CLOSE", "UNSELECT", "IDLE":
 		return c.K
+	case "STALL":
+		return "NOOP" // sent by a client that has stopped reading
+	case "RESUME":
+		return "(reads again)"
 	case "SELECT":
 		return "SELECT " + wireName(c.Mbox)
 	case "APPEND":
@@ -356,11 +360,12 @@ func (c *Cmd) name() string {
 // ------------------------------------------------------------------ world
 
 type sess struct {
-	name    string
-	conn    *vh.Conn
-	raw     *vh.Raw
-	idleTag string
-	owed    []Item // predicted for an idling session but not seen yet (late wake-up)
+	name     string
+	conn     *vh.Conn
+	raw      *vh.Raw
+	idleTag  string
+	stallTag string // tag of the NOOP whose responses the server is blocked writing
+	owed     []Item // predicted for an idling session but not seen yet (late wake-up)
 }
 
 // wireName: the model's mailbox A is INBOX on the wire (the one mailbox with rules of its own), B is B
@@ -610,6 +615,24 @@ func (s *sess) run(c *Cmd) ([]Item, error) {
 			return nil, err
 		}
 		return s.until(s.idleTag, false)
+	case "STALL":
+		// the client stops reading (its receive window is full) and sends NOOP: the server takes what is
+		// pending for the session and blocks in the first write
+		s.conn.SetPeerWindow(-1)
+		s.stallTag = s.raw.NextTag()
+		if err := s.raw.Send(s.stallTag + " NOOP\r\n"); err != nil {
+			return nil, err
+		}
+		for i := 0; !s.conn.PeerBlockedInWrite(); i++ {
+			if i > 100000 {
+				return nil, fmt.Errorf("STALL: the server never got to write anything for NOOP")
+			}
+			time.Sleep(100 * time.Microsecond)
+		}
+		return []Item{}, nil
+	case "RESUME":
+		s.conn.SetPeerWindow(0)
+		return s.until(s.stallTag, false)
 	}
 	tag := s.raw.NextTag()
 	if err := s.raw.Send(tag + " " + c.wire() + "\r\n"); err != nil {
@@ -1034,6 +1057,7 @@ type rec struct {
 // received (no mailbox semantics): which mailbox it selected, the count
 // announced, UIDs it has seen.
 type client struct {
+	stalled bool
 	sel     string
 	count   int
 	uids    []uint32
@@ -1237,8 +1261,10 @@ func reading(rng *rand.Rand, cl *client) *Cmd {
 			c.Fl = randFlag(rng)
 		}
 		return c
-	case r < 91:
+	case r < 89:
 		return &Cmd{K: "NOOP"}
+	case r < 92:
+		return &Cmd{K: "STALL"} // NOOP from a client that stops reading for a while
 	case r < 96:
 		return &Cmd{K: "IDLE"}
 	case r < 98:
@@ -1261,7 +1287,7 @@ func cmdRandom(path string, seed int64, traces, steps int) {
 	defer bw.Flush()
 	enc := json.NewEncoder(bw)
 	rng := rand.New(rand.NewSource(seed))
-	total, lost, garbled, idleDeliveries, foreign := 0, 0, 0, 0, 0
+	total, lost, garbled, idleDeliveries, foreign, stalledDeliveries := 0, 0, 0, 0, 0, 0
 	kinds := map[string]int{}
 	for t := 0; t < traces; t++ {
 		enc.Encode(rec{Ev: "Reset", Au: []uint32{}})
@@ -1304,17 +1330,21 @@ func cmdRandom(path string, seed int64, traces, steps int) {
 			cl := cls[nm]
 			var c *Cmd
 			switch {
-			case cl.idle:
+			case cl.idle || cl.stalled:
+				back := "DONE"
+				if cl.stalled {
+					back = "RESUME"
+				}
 				if rng.Intn(3) != 0 && n > 1 {
 					// let it idle: someone else acts instead
 					var cands []string
 					for _, x := range names {
-						if !cls[x].idle {
+						if !cls[x].idle && !cls[x].stalled {
 							cands = append(cands, x)
 						}
 					}
 					if len(cands) == 0 {
-						c = &Cmd{K: "DONE"}
+						c = &Cmd{K: back}
 					} else {
 						nm = cands[rng.Intn(len(cands))]
 						cl = cls[nm]
@@ -1325,7 +1355,7 @@ func cmdRandom(path string, seed int64, traces, steps int) {
 						}
 					}
 				} else {
-					c = &Cmd{K: "DONE"}
+					c = &Cmd{K: back}
 				}
 			case nm == mutator && rng.Intn(100) < 85:
 				c = mutation(rng, cl)
@@ -1358,6 +1388,9 @@ func cmdRandom(path string, seed int64, traces, steps int) {
 			r.Out[nm] = canon(got)
 			kinds[c.name()]++
 			ok := len(got) > 0 && got[len(got)-1].T == "ok"
+			if c.K == "RESUME" && ok {
+				stalledDeliveries += len(got) - 1
+			}
 			if len(got) > 0 && got[len(got)-1].T == "garbled" {
 				garbled++
 			}
@@ -1380,10 +1413,14 @@ func cmdRandom(path string, seed int64, traces, steps int) {
 				}
 			case "DONE":
 				cl.idle = false
+			case "STALL":
+				cl.stalled = err == nil
+			case "RESUME":
+				cl.stalled = false
 			}
 			cl.learn(got)
 			switch c.K {
-			case "NOOP", "FETCH", "SEARCH", "STORE", "APPEND", "COPY", "DONE":
+			case "NOOP", "FETCH", "SEARCH", "STORE", "APPEND", "COPY", "DONE", "RESUME":
 				// an EXPUNGE here reports a removal made through another session
 				for _, it := range got {
 					if it.T == "expunge" {
@@ -1424,7 +1461,7 @@ func cmdRandom(path string, seed int64, traces, steps int) {
 		w.close()
 	}
 	out.Summary(map[string]interface{}{"records": total, "traces": traces, "lost": lost, "garbled_completions": garbled,
-		"idle_deliveries": idleDeliveries, "commands": kinds, "expunges_of_other_sessions_delivered": foreign})
+		"idle_deliveries": idleDeliveries, "responses_delivered_after_a_stall": stalledDeliveries, "commands": kinds, "expunges_of_other_sessions_delivered": foreign})
 }
 
 // ------------------------------------------------------------------ script (diagnosis)
